@@ -12,6 +12,7 @@ import (
 
 	"verif/internal/an"
 	"verif/internal/load"
+	"verif/internal/report"
 )
 
 func init() {
@@ -1019,4 +1020,101 @@ func baseName(p string) string {
 		return p[i+1:]
 	}
 	return p
+}
+
+// ---- C26.7 (seeded C26-2): post-handshake code touches the write half under its lock ---------
+
+func init() { registerExtra("C26", c26OutUnderLock) }
+
+// c26OutUnderLock: the post-handshake message handlers run inside Read (holding Conn.in) while
+// another goroutine may be inside Write (holding Conn.out). Every use of the write half
+// (c.out.<field or method>, lock operations excepted) in those handlers must therefore happen
+// with Conn.out held on every path; otherwise a key update races with a concurrent Write.
+func c26OutUnderLock(c *Ctx) {
+	r := c.R
+	info := c.Info()
+	n := 0
+	for _, site := range []struct{ recv, name string }{
+		{"Conn", "handleKeyUpdate"}, {"Conn", "handlePostHandshakeMessage"}, {"UConn", "handlePostHandshakeMessage"},
+		{"Conn", "handleNewSessionTicket"},
+	} {
+		fd := load.FuncDecl(c.P.TLS, site.recv, site.name)
+		if fd == nil || fd.Body == nil {
+			continue
+		}
+		fn := an.NewFn(c.P.TLS, fd)
+		lf := NewLockFlow(fn, lockSet{lockIn: 2})
+		who := site.recv + "." + site.name
+		ord := 0
+		seen := map[token.Pos]bool{}
+		for _, h := range fn.FindNodes(func(x ast.Node) bool {
+			return an.Contains(x, func(y ast.Node) bool {
+				se, ok := y.(*ast.SelectorExpr)
+				return ok && an.FieldSel(info, an.Unparen(se.X), "Conn", "out")
+			})
+		}) {
+			ast.Inspect(h.N, func(y ast.Node) bool {
+				if _, isLit := y.(*ast.FuncLit); isLit {
+					return false
+				}
+				se, ok := y.(*ast.SelectorExpr)
+				if !ok || !an.FieldSel(info, an.Unparen(se.X), "Conn", "out") {
+					return true
+				}
+				switch se.Sel.Name {
+				case "Lock", "Unlock", "TryLock":
+					return true
+				}
+				if _, isDefer := h.N.(*ast.DeferStmt); isDefer {
+					return true
+				}
+				if seen[se.Pos()] {
+					return true
+				}
+				seen[se.Pos()] = true
+				ord++
+				n++
+				held := lf.AtSub(h.P, se)
+				r.Check(held.Has(lockOut), "C26.7", fmt.Sprintf("%s:out.%s#%d", who, se.Sel.Name, ord), c.Pos(se),
+					"write half used with Conn.out held",
+					"c.out."+se.Sel.Name+" is used after the handshake without Conn.out held (held: "+held.String()+"): a concurrent Write races with it (a record can go out under the old key after the KeyUpdate)")
+				return true
+			})
+		}
+	}
+	r.Count("C26.7_uses", n)
+	r.Floor("C26.7", 3)
+}
+
+// ---- C02.8 (seeded C02-2): the second ClientHello keeps pre_shared_key / padding last --------
+
+// The ClientHello sent after a HelloRetryRequest is also "a ClientHello utls emits": inserting
+// the cookie extension at an index that can equal len(Extensions) puts it after
+// pre_shared_key. The insertion-shape and index rules are those of C17.7.
+func init() {
+	registerExtra("C02", func(c *Ctx) {
+		c.R.Borrow(map[string]string{"C17.7": "C02.8"}, func() { runC17(c) })
+	})
+}
+
+// ---- C03.7 (seeded C03-2) and C18.6 (seeded C18-1): facts shared with C13 and C31 --------------
+
+func init() {
+	// legacy_version is derived from Config.MaxVersion, which SetTLSVers must set from the spec
+	// on every success path (rule C13.2): a conditional store lets a caller's lower MaxVersion
+	// leak into the hello's legacy_version while supported_versions still comes from the spec.
+	registerExtra("C03", func(c *Ctx) {
+		c.R.BorrowIf(map[string]string{"C13.2": "C03.7"}, func(o report.Obligation) bool {
+			return strings.HasPrefix(o.Construct, "SetTLSVers")
+		}, func() { runC13(c) })
+		c.R.Floor("C03.7", 2)
+	})
+	// the retained keys reach the handshake through KeySharePrivateKeys.ToPrivate: a field the
+	// conversion drops is a private key that is published but not retained (rule C31.1).
+	registerExtra("C18", func(c *Ctx) {
+		c.R.BorrowIf(map[string]string{"C31.1": "C18.6"}, func(o report.Obligation) bool {
+			return strings.HasPrefix(o.Construct, "KeySharePrivateKeys<->")
+		}, func() { runC31(c) })
+		c.R.Floor("C18.6", 3)
+	})
 }
